@@ -135,6 +135,7 @@ def run(ctx) -> None:
   ctx.rule('R3', 'each dominance predicate is Pareto dominance with consistent orientation and a '
            'single negation towards "optimal"', 5)
   ctx.rule('R4', 'GetBestTrials: sign flip for MINIMIZE, unsafe trials warped first, descending rank / Pareto routine', 3)
+  ctx.rule('R5', 'dominance predicates compare coordinates directly, never `X - Y <op> 0` (inf - inf = NaN; the property covers +-inf)', 5)
   svc = Svc(ctx)
   fi = svc.rpcs['ListOptimalTrials']
   r1_r2_service(ctx, svc, fi)
@@ -143,6 +144,7 @@ def run(ctx) -> None:
   r3_xla(ctx)
   r3_naive(ctx)
   r4_best_trials(ctx)
+  r5_no_difference_compare(ctx)
 
 
 # ------------------------------------------------------------------- R1, R2
@@ -305,6 +307,67 @@ def r3_service(ctx, fi: FuncInfo) -> None:
           if cand_v is not None else 'reduction axis of the dominance matrix not recognised')
 
 
+def _is_zero(e: ast.AST) -> bool:
+  return isinstance(e, ast.Constant) and isinstance(e.value, (int, float)) and not isinstance(e.value, bool) and e.value == 0
+
+
+def difference_compares(fn: ast.AST) -> List[ast.Compare]:
+  """Comparisons `X - Y <op> 0` (directly or through a local bound to a subtraction) under all()/any().
+
+  Deciding dominance on coordinate differences is not the order on the coordinates once +-inf may
+  occur (the property quantifies over them): inf - inf is NaN and every comparison with NaN is
+  False, so two points tied at +-inf in one coordinate are never related.
+  """
+  env: Dict[str, ast.AST] = {}
+  for n in ast.walk(fn):
+    if isinstance(n, ast.Assign) and len(n.targets) == 1 and isinstance(n.targets[0], ast.Name):
+      env[n.targets[0].id] = n.value
+
+  def is_diff(e: ast.AST, depth: int = 0) -> bool:
+    if isinstance(e, ast.BinOp) and isinstance(e.op, ast.Sub):
+      return True
+    if isinstance(e, ast.Name) and e.id in env and depth < 4:
+      return is_diff(env[e.id], depth + 1)
+    if isinstance(e, ast.Subscript):
+      return is_diff(e.value, depth)
+    return False
+
+  out = []
+  for n in ast.walk(fn):
+    if isinstance(n, ast.Call) and (dotted(n.func) or '').rsplit('.', 1)[-1] in ('all', 'any') and n.args:
+      c = n.args[0]
+      if isinstance(c, ast.Name) and c.id in env:
+        c = env[c.id]
+      if isinstance(c, ast.Compare) and len(c.ops) == 1:
+        l, r = c.left, c.comparators[0]
+        if (is_diff(l) and _is_zero(r)) or (is_diff(r) and _is_zero(l)):
+          out.append(c)
+  return out
+
+
+def r5_no_difference_compare(ctx) -> None:
+  sites = [
+      ('vizier._src.algorithms.evolution.nsga2._pareto_rank', None),
+      ('vizier._src.jax.xla_pareto._is_dominated', None),
+      ('vizier._src.pyvizier.multimetric.pareto_optimal.NaiveParetoOptimalAlgorithm', 'is_pareto_optimal'),
+      ('vizier._src.pyvizier.multimetric.pareto_optimal.NaiveParetoOptimalAlgorithm', 'is_pareto_optimal_against'),
+      ('vizier._src.service.vizier_service.VizierServicer', 'ListOptimalTrials'),
+  ]
+  for q, m in sites:
+    if m is None:
+      fi = ctx.index.need_func(q)
+    else:
+      fi = ctx.index.need_class(q).methods.get(m)
+      if fi is None:
+        raise AnalysisError(f'{q}.{m} not found')
+    hits = difference_compares(fi.node)
+    ctx.check(not hits, 'R5', f'{fi.qualname}: coordinates compared directly', hits[0] if hits else fi.node,
+              'no all()/any() over `X - Y <op> 0`',
+              'dominance is decided on coordinate differences: inf - inf (and -inf - -inf) is NaN, which compares False, '
+              'so points tied at +-inf in a coordinate are never dominated / never dominate',
+              construct='difference-compare', func=fi.qualname)
+
+
 def r3_nsga2(ctx) -> None:
   fi = ctx.index.need_func('vizier._src.algorithms.evolution.nsga2._pareto_rank')
   comp = None
@@ -312,6 +375,11 @@ def r3_nsga2(ctx) -> None:
     if isinstance(n, ast.ListComp):
       comp = n
   if comp is None:
+    if difference_compares(fi.node):
+      ctx.bad('R3', 'nsga2._pareto_rank', fi.node,
+              'the dominance predicate is computed on coordinate differences (see R5), not by comparing coordinates',
+              construct='nsga2._pareto_rank', func=fi.qualname)
+      return
     raise AnalysisError('_pareto_rank: comprehension not found')
   rv = comp.generators[0].target.id
   src = unparse(comp.generators[0].iter, 0)
@@ -476,6 +544,9 @@ VARIANTS = [
             'np.any(points[is_optimal] > point, axis=1)', 'np.any(points[is_optimal] >= point, axis=1)', rule='R3'),
     Variant('best-no-flip', 'vizier/_src/pythia/local_policy_supporters.py',
             'flip_sign_for_minimization_metrics=True,\n        dtype=np.float32', 'flip_sign_for_minimization_metrics=False,\n        dtype=np.float32', rule='R4'),
+    Variant('nsga2-gaps', 'vizier/_src/algorithms/evolution/nsga2.py',
+            'dominated = [np.all(ys <= r, axis=-1) & np.any(r > ys, axis=-1) for r in ys]',
+            'dominated = [np.all(r - ys >= 0, axis=-1) & np.any(r - ys > 0, axis=-1) for r in ys]', rule='R5'),
     Variant('benign-continue-guard', _SVC,
             "    for trial in raw_trial_list:\n      trial_metric_id_to_value = {",
             "    for trial in raw_trial_list:\n      if trial.state != study_pb2.Trial.State.SUCCEEDED:\n        continue\n      trial_metric_id_to_value = {",
